@@ -244,4 +244,319 @@ Section SortProofs.
     - exists l'. split; [exact E|]. split; [exact Rl|].
       intros a m c Ha Ham Hmc Hch. apply (G a m c); auto.
   Qed.
+
+  (* ================= pvSelectionSort ================= *)
+  Definition sortedR (l : arr) (lo hi : Z) : Prop := forall a b, lo <= a -> a <= b -> b < hi -> code l a <= code l b.
+  (* inside a run of equal codes of [lo,hi), equal items are contiguous *)
+  Definition groupedR (l : arr) (lo hi : Z) : Prop :=
+    forall a m c, lo <= a -> a < m -> m < c -> c < hi -> code l a = code l c -> EQ l a c -> EQ l a m.
+
+  Lemma code_swap l i j k : 0 <= i < alen l -> 0 <= j < alen l -> 0 <= k ->
+    code (swap l i j) k = if k =? j then code l i else if k =? i then code l j else code l k.
+  Proof. intros. unfold code. rewrite get_swap by lia. destruct (k =? j); [|destruct (k =? i)]; reflexivity. Qed.
+
+  Lemma relR_codes_const lo hi l l' v : 0 <= lo -> relR lo hi l l' -> (forall k, lo <= k < hi -> code l k = v) ->
+    forall k, 0 <= k -> code l' k = code l k.
+  Proof.
+    intros Hlo (_ & _ & F & Rg) Hv k Hk. destruct (Z_lt_le_dec k lo); [unfold code; rewrite F by lia; reflexivity|].
+    destruct (Z_lt_le_dec k hi); [|unfold code; rewrite F by lia; reflexivity].
+    rewrite (Hv k) by lia. apply (Rg (fun e => fst e = v)); [|lia]. intros k' Hk'. apply Hv. lia.
+  Qed.
+
+  Section Selection.
+    Variable grp : arr -> Z -> Z -> outcome arr.
+    Variable p cnt : Z.
+    Hypothesis Hp : 0 <= p.
+
+    Lemma min_loop_spec l i : forall n k best, i + 1 <= best -> best < k -> k + Z.of_nat n = cnt ->
+      (forall x, i + 1 <= x < k -> code l (p + best) <= code l (p + x)) ->
+      i + 1 <= min_loop n l p k best < cnt /\ (forall x, i + 1 <= x < cnt -> code l (p + min_loop n l p k best) <= code l (p + x)).
+    Proof.
+      induction n as [|n IH]; intros k best Hb Hbk Hn Hmin.
+      - simpl in *. split; [lia|]. intros x Hx. apply Hmin. lia.
+      - rewrite Nat2Z.inj_succ in Hn. cbn [min_loop]. apply IH; try lia.
+        + destruct (Z.ltb_spec (code l (p + k)) (code l (p + best))); lia.
+        + destruct (Z.ltb_spec (code l (p + k)) (code l (p + best))); lia.
+        + intros x Hx. destruct (Z.ltb_spec (code l (p + k)) (code l (p + best))) as [Hlt|Hge].
+          * destruct (Z.eq_dec x k) as [->|]; [lia|]. specialize (Hmin x ltac:(lia)). lia.
+          * destruct (Z.eq_dec x k) as [->|]; [lia|]. apply Hmin. lia.
+    Qed.
+
+    Lemma sel_loop_spec : forall n i l, 0 <= i -> i + Z.of_nat n = cnt - 1 -> p + cnt <= alen l ->
+      sortedR l p (p + i) -> (forall a b, 0 <= a < i -> i <= b < cnt -> code l (p + a) <= code l (p + b)) ->
+      exists l', sel_loop sw n p cnt i l = Ok l' /\ relR p (p + cnt) l l' /\ sortedR l' p (p + cnt).
+    Proof.
+      induction n as [|n IH]; intros i l Hi Hn Hl Hs Hle.
+      - simpl in *. exists l. split; [reflexivity|]. split; [apply relR_refl|].
+        intros a b Ha Hab Hb. destruct (Z.eq_dec b (p + i)) as [->|].
+        + destruct (Z.eq_dec a (p + i)) as [->|]; [lia|].
+          specialize (Hle (a - p) i ltac:(lia) ltac:(lia)). replace (p + (a - p)) with a in Hle by lia. exact Hle.
+        + apply Hs; lia.
+      - rewrite Nat2Z.inj_succ in Hn. cbn [sel_loop]. unfold min_index.
+        destruct (min_loop_spec l i (Z.to_nat (cnt - (i + 2))) (i + 2) (i + 1)) as [Hm Hmin]; try lia.
+        { intros x Hx. replace x with (i + 1) by lia. lia. }
+        set (m := min_loop (Z.to_nat (cnt - (i + 2))) l p (i + 2) (i + 1)) in *.
+        destruct (Z.ltb_spec (code l (p + m)) (code l (p + i))) as [Hlt|Hge].
+        + rewrite swp_ok by lia. cbn [bind]. set (l1 := swap l (p + i) (p + m)).
+          assert (C1 : forall k, 0 <= k -> code l1 k = if k =? p + m then code l (p + i) else if k =? p + i then code l (p + m) else code l k).
+          { intros k Hk. unfold l1. apply code_swap; lia. }
+          destruct (IH (i + 1) l1) as (l' & E' & R' & S'); try lia.
+          { unfold l1. rewrite alen_swap. lia. }
+          { intros a b Ha Hab Hb. rewrite (C1 a), (C1 b) by lia.
+            destruct (Z.eqb_spec a (p + m)); [lia|]. destruct (Z.eqb_spec b (p + m)); [lia|].
+            destruct (Z.eqb_spec b (p + i)) as [->|].
+            - destruct (Z.eqb_spec a (p + i)); [lia|].
+              specialize (Hle (a - p) m ltac:(lia) ltac:(lia)). replace (p + (a - p)) with a in Hle by lia. exact Hle.
+            - destruct (Z.eqb_spec a (p + i)); [lia|]. apply Hs; lia. }
+          { intros a b Ha Hb. rewrite (C1 (p + a)), (C1 (p + b)) by lia.
+            destruct (Z.eqb_spec (p + a) (p + m)); [lia|].
+            destruct (Z.eqb_spec (p + a) (p + i)) as [Ea|Na].
+            - destruct (Z.eqb_spec (p + b) (p + m)); [lia|]. destruct (Z.eqb_spec (p + b) (p + i)); [lia|].
+              apply Hmin. lia.
+            - destruct (Z.eqb_spec (p + b) (p + m)); [apply Hle; lia|]. destruct (Z.eqb_spec (p + b) (p + i)); [lia|].
+              apply Hle; lia. }
+          exists l'. split; [exact E'|]. split; [|exact S'].
+          eapply relR_trans; [|exact R']. apply relR_swap; lia.
+        + cbn [bind]. apply IH; try lia.
+          { intros a b Ha Hab Hb. destruct (Z.eq_dec b (p + i)) as [->|]; [|apply Hs; lia].
+            destruct (Z.eq_dec a (p + i)) as [->|]; [lia|].
+            specialize (Hle (a - p) i ltac:(lia) ltac:(lia)). replace (p + (a - p)) with a in Hle by lia. exact Hle. }
+          { intros a b Ha Hb. destruct (Z.eq_dec a i) as [->|]; [|apply Hle; lia].
+            specialize (Hmin b ltac:(lia)). lia. }
+    Qed.
+
+    (* contract of the group callback: called on a range of equal codes it succeeds, only rearranges that range, and
+       leaves equal items contiguous in it (HashSorter's callback: pvGroup for count > 2, nothing to do for count <= 2) *)
+    Hypothesis Hgrp : forall l q c, 0 <= q -> 0 <= c -> q + c <= alen l ->
+      exists l', grp l q c = Ok l' /\ relR q (q + c) l l' /\ contigL l' q (q + c).
+
+    Lemma run_loop_spec : forall n i prev l, 0 <= prev -> prev < i -> i + Z.of_nat n = cnt -> p + cnt <= alen l ->
+      sortedR l p (p + cnt) -> (forall k, prev <= k < i -> code l (p + k) = code l (p + prev)) ->
+      (prev = 0 \/ code l (p + prev - 1) < code l (p + prev)) -> groupedR l p (p + prev) ->
+      exists l', run_loop grp n p cnt i prev l = Ok l' /\ relR p (p + cnt) l l' /\ sortedR l' p (p + cnt) /\ groupedR l' p (p + cnt).
+    Proof.
+      assert (Step : forall l prev e, 0 <= prev -> prev < e -> e <= cnt -> p + cnt <= alen l -> sortedR l p (p + cnt) ->
+        (forall k, prev <= k < e -> code l (p + k) = code l (p + prev)) ->
+        (prev = 0 \/ code l (p + prev - 1) < code l (p + prev)) -> groupedR l p (p + prev) ->
+        exists l', grp l (p + prev) (e - prev) = Ok l' /\ relR p (p + cnt) l l' /\ (forall k, 0 <= k -> code l' k = code l k) /\
+          groupedR l' p (p + e)).
+      { intros l prev e Hpv Hpe Hec Hl Hs Hrun Hb Hg.
+        destruct (Hgrp l (p + prev) (e - prev)) as (l' & E & Rr & Cg); try lia.
+        replace (p + prev + (e - prev)) with (p + e) in Rr, Cg by lia.
+        assert (Cc : forall k, 0 <= k -> code l' k = code l k).
+        { apply (relR_codes_const (p + prev) (p + e) l l' (code l (p + prev))); [lia|exact Rr|].
+          intros k Hk. replace k with (p + (k - p)) by lia. apply Hrun. lia. }
+        exists l'. split; [exact E|]. split; [eapply relR_widen; [| | |exact Rr]; lia|]. split; [exact Cc|].
+        intros a m c Ha Ham Hmc Hc Hcode Eac. rewrite !Cc in Hcode by lia.
+        destruct Rr as (_ & _ & F & _).
+        destruct (Z_lt_le_dec c (p + prev)) as [Lc|Gc].
+        - unfold EQ, itm in *. rewrite (F a), (F c) in Eac by lia. rewrite (F a), (F m) by lia. apply (Hg a m c); auto.
+        - assert (p + prev <= a).
+          { destruct (Z_lt_le_dec a (p + prev)); [|lia]. exfalso. destruct Hb as [->|Hb]; [lia|].
+            pose proof (Hs a (p + prev - 1) ltac:(lia) ltac:(lia) ltac:(lia)).
+            pose proof (Hs (p + prev) c ltac:(lia) ltac:(lia) ltac:(lia)). lia. }
+          apply (Cg a m c); auto; lia. }
+      induction n as [|n IH]; intros i prev l Hpv Hpi Hn Hl Hs Hrun Hb Hg.
+      - simpl in Hn. cbn [run_loop]. destruct (Step l prev cnt) as (l' & E & Rr & Cc & Gg); try lia; auto.
+        { intros k Hk. apply Hrun. lia. }
+        exists l'. split; [exact E|]. split; [exact Rr|]. split; [|exact Gg].
+        intros a b Ha Hab Hbb. rewrite !Cc by lia. apply Hs; lia.
+      - rewrite Nat2Z.inj_succ in Hn. cbn [run_loop].
+        destruct (Z.eqb_spec (code l (p + i)) (code l (p + prev))) as [He|Hne]; cbn [negb].
+        + apply IH; try lia; auto. intros k Hk. destruct (Z.eq_dec k i) as [->|]; [exact He|apply Hrun; lia].
+        + destruct (Step l prev i) as (l1 & E & Rr & Cc & Gg); try lia; auto.
+          rewrite E. cbn [bind].
+          destruct (IH (i + 1) i l1) as (l' & E' & R' & S' & G'); try lia; auto.
+          { destruct Rr as (_ & L & _). lia. }
+          { intros a b Ha Hab Hbb. rewrite !Cc by lia. apply Hs; lia. }
+          { intros k Hk. replace k with i by lia. reflexivity. }
+          { right. rewrite !Cc by lia. pose proof (Hrun (i - 1) ltac:(lia)). replace (p + (i - 1)) with (p + i - 1) in H by lia.
+            pose proof (Hs (p + i - 1) (p + i) ltac:(lia) ltac:(lia) ltac:(lia)). lia. }
+          exists l'. split; [exact E'|]. split; [eapply relR_trans; eauto|]. auto.
+    Qed.
+
+    (* pvSelectionSort on [p, p+cnt): total; a permutation of that range only; codes non-decreasing; and (given the
+       group callback contract) equal items contiguous inside every run of equal codes *)
+    Theorem pvSelectionSort_spec l : 0 < cnt -> p + cnt <= alen l ->
+      exists l', pvSelectionSort sw grp l p cnt = Ok l' /\ relR p (p + cnt) l l' /\ sortedR l' p (p + cnt) /\ groupedR l' p (p + cnt).
+    Proof.
+      intros Hc Hl. unfold pvSelectionSort. destruct (Z.ltb_spec 0 cnt); [|lia].
+      destruct (sel_loop_spec (Z.to_nat (cnt - 1)) 0 l) as (l1 & E1 & R1 & S1); try lia.
+      all: try (intros a b Ha Hab Hb; lia). all: try (intros a b Ha; lia).
+      rewrite E1. cbn [bind]. pose proof R1 as (_ & L1 & _).
+      destruct (run_loop_spec (Z.to_nat (cnt - 1)) 1 0 l1) as (l' & E' & R' & S' & G'); try lia; auto.
+      all: try (intros k Hk; replace k with 0 by lia; reflexivity).
+      all: try (intros a m c Ha Ham Hmc Hcc; lia).
+      exists l'. split; [exact E'|]. split; [eapply relR_trans; eauto|]. auto.
+    Qed.
+  End Selection.
+
+  (* HashSorter's group callback fulfils the contract *)
+  Lemma hs_group_contract l q c : 0 <= q -> 0 <= c -> q + c <= alen l ->
+    exists l', hs_group sw eqf l q c = Ok l' /\ relR q (q + c) l l' /\ contigL l' q (q + c).
+  Proof.
+    intros Hq Hc Hl. unfold hs_group. destruct (Z.ltb_spec 2 c).
+    - apply pvGroup_spec; assumption.
+    - exists l. split; [reflexivity|]. split; [apply relR_refl|]. intros a m c' Ha Ham Hmc Hc'. lia.
+  Qed.
+
+  (* pvSort below the selection-sort threshold (count <= 2^(R/2+1)): total and fully correct *)
+  Theorem sort_small_spec R grp f l p cnt shift :
+    (forall l q c, 0 <= q -> 0 <= c -> q + c <= alen l ->
+       exists l', grp l q c = Ok l' /\ relR q (q + c) l l' /\ contigL l' q (q + c)) ->
+    0 <= p -> 0 <= cnt -> cnt <= selMax R -> p + cnt <= alen l ->
+    exists l', sort_f sw R grp (S f) l p cnt shift = Ok l' /\ relR p (p + cnt) l l' /\ sortedR l' p (p + cnt) /\ groupedR l' p (p + cnt).
+  Proof.
+    intros Hgrp Hp Hc Hsm Hl. cbn [sort_f].
+    destruct (Z.ltb_spec cnt 2).
+    { exists l. split; [reflexivity|]. split; [apply relR_refl|]. split.
+      - intros a b Ha Hab Hb. replace b with a by lia. lia.
+      - intros a m c Ha Ham Hmc Hcc. lia. }
+    destruct (Z.eqb_spec cnt 2) as [->|].
+    { destruct (Z.ltb_spec (code l (p + 1)) (code l p)).
+      - rewrite swp_ok by lia. exists (swap l p (p + 1)). split; [reflexivity|]. split; [apply relR_swap; lia|]. split.
+        + intros a b Ha Hab Hb. rewrite !code_swap by lia.
+          destruct (Z.eqb_spec a (p + 1)); destruct (Z.eqb_spec b (p + 1)); destruct (Z.eqb_spec a p); destruct (Z.eqb_spec b p); lia.
+        + intros a m c Ha Ham Hmc Hcc. lia.
+      - exists l. split; [reflexivity|]. split; [apply relR_refl|]. split.
+        + intros a b Ha Hab Hb. destruct (Z.eq_dec a b) as [->|]; [lia|]. replace a with p by lia. replace b with (p + 1) by lia. lia.
+        + intros a m c Ha Ham Hmc Hcc. lia. }
+    destruct (Z.leb_spec cnt (selMax R)); [|lia].
+    apply pvSelectionSort_spec; auto; lia.
+  Qed.
+
+  (* ================= the whole pvSort / pvRadixSort: PARTIAL correctness of "permutation" =================
+     Whenever the model returns Ok (the tie shows it does, with the real swap trace, on every tested input), the result
+     is a permutation of the input of the same length: every mutation is an in-range iterSwapper call. *)
+  Definition PP (l l' : arr) : Prop := Permutation l l' /\ alen l' = alen l.
+  Lemma PP_refl l : PP l l. Proof. split; auto. Qed.
+  Lemma PP_trans a b c : PP a b -> PP b c -> PP a c.
+  Proof. intros [P1 L1] [P2 L2]. split; [eapply perm_trans; eauto|lia]. Qed.
+  Lemma swp_PP l i j l' : swp sw l i j = Ok l' -> PP l l'.
+  Proof.
+    unfold swp, inr. intros H. destruct ((0 <=? i) && (i <? alen l) && ((0 <=? j) && (j <? alen l))) eqn:B; [|discriminate].
+    inversion H; subst l'. rewrite Hsw. apply andb_true_iff in B. destruct B as [B1 B2].
+    apply andb_true_iff in B1. apply andb_true_iff in B2. destruct B1 as [A1 A2]. destruct B2 as [A3 A4].
+    apply Z.leb_le in A1. apply Z.ltb_lt in A2. apply Z.leb_le in A3. apply Z.ltb_lt in A4.
+    split; [apply Permutation_sym, perm_swap_Z; lia|apply alen_swap].
+  Qed.
+
+  Section Partial.
+    Variable R : Z.
+    Variable grp : arr -> Z -> Z -> outcome arr.
+    Hypothesis grp_PP : forall l q c l', grp l q c = Ok l' -> PP l l'.
+
+    Lemma sel_loop_PP : forall n p cnt i l l', sel_loop sw n p cnt i l = Ok l' -> PP l l'.
+    Proof.
+      induction n as [|n IH]; intros p cnt i l l' H; cbn [sel_loop] in H.
+      - inversion H. apply PP_refl.
+      - destruct (code l (p + min_index l p cnt i) <? code l (p + i)).
+        + destruct (swp sw l (p + i) (p + min_index l p cnt i)) eqn:E; try discriminate. cbn [bind] in H.
+          eapply PP_trans; [eapply swp_PP; eauto|eapply IH; eauto].
+        + cbn [bind] in H. eapply IH; eauto.
+    Qed.
+    Lemma run_loop_PP : forall n p cnt i prev l l', run_loop grp n p cnt i prev l = Ok l' -> PP l l'.
+    Proof.
+      induction n as [|n IH]; intros p cnt i prev l l' H; cbn [run_loop] in H.
+      - eapply grp_PP; eauto.
+      - destruct (negb (code l (p + i) =? code l (p + prev))).
+        + destruct (grp l (p + prev) (i - prev)) eqn:E; try discriminate. cbn [bind] in H.
+          eapply PP_trans; [eapply grp_PP; eauto|eapply IH; eauto].
+        + eapply IH; eauto.
+    Qed.
+    Lemma selection_PP l p cnt l' : pvSelectionSort sw grp l p cnt = Ok l' -> PP l l'.
+    Proof.
+      unfold pvSelectionSort. destruct (0 <? cnt); [|discriminate].
+      destruct (sel_loop sw (Z.to_nat (cnt - 1)) p cnt 0 l) eqn:E; try discriminate. cbn [bind].
+      intros H. eapply PP_trans; [eapply sel_loop_PP; eauto|eapply run_loop_PP; eauto].
+    Qed.
+    Lemma perm_loop_PP : forall f l p shift r ei bi l', perm_loop sw R f l p shift r ei bi = Ok l' -> PP l l'.
+    Proof.
+      induction f as [|f IH]; intros l p shift r ei bi l' H; cbn [perm_loop] in H; [discriminate|].
+      destruct (r <? radixCount R); [|inversion H; apply PP_refl].
+      destruct (bi r <? ei r); [|eapply IH; eauto].
+      destruct (negb (getRadix R (code l (p + bi r)) shift =? r)).
+      - destruct (swp sw l (p + bi r) (p + bi (getRadix R (code l (p + bi r)) shift))) eqn:E; try discriminate. cbn [bind] in H.
+        eapply PP_trans; [eapply swp_PP; eauto|eapply IH; eauto].
+      - cbn [bind] in H. eapply IH; eauto.
+    Qed.
+    Lemma buckets_PP k : (forall l b c l', k l b c = Ok l' -> PP l l') ->
+      forall n ei r bi l l', buckets k ei n r bi l = Ok l' -> PP l l'.
+    Proof.
+      intros Hk. induction n as [|n IH]; intros ei r bi l l' H; cbn [buckets] in H.
+      - inversion H. apply PP_refl.
+      - destruct (k l bi (ei r - bi)) eqn:E; try discriminate. cbn [bind] in H.
+        eapply PP_trans; [eapply Hk; eauto|eapply IH; eauto].
+    Qed.
+
+    Lemma sort_radix_PP : forall f,
+      (forall l p cnt shift l', sort_f sw R grp f l p cnt shift = Ok l' -> PP l l') /\
+      (forall l p cnt shift l', radix_f sw R grp f l p cnt shift = Ok l' -> PP l l').
+    Proof.
+      induction f as [|f [IHs IHr]]; split; intros l p cnt shift l' H; try (cbn in H; discriminate).
+      - cbn [sort_f] in H. destruct (cnt <? 2); [inversion H; apply PP_refl|].
+        destruct (cnt =? 2).
+        { destruct (code l (p + 1) <? code l p); [eapply swp_PP; eauto|inversion H; apply PP_refl]. }
+        destruct (cnt <=? selMax R); [eapply selection_PP; eauto|eapply IHr; eauto].
+      - cbn [radix_f] in H.
+        destruct (cnt_loop R (Z.to_nat (cnt - 1)) l p shift 1 (code l p) (getRadix R (code l p) shift)
+                    (upd (fun _ => 0) (getRadix R (code l p) shift) 1) true true) as [[ei sc] sr].
+        destruct sc; [eapply grp_PP; eauto|].
+        destruct sr.
+        { destruct (0 <? shift); [eapply IHr; eauto|discriminate]. }
+        cbv zeta in H.
+        match type of H with (bind ?X _ = _) => destruct X eqn:E; try discriminate end. cbn [bind] in H.
+        eapply PP_trans; [eapply perm_loop_PP; eauto|].
+        destruct (0 <? shift).
+        + eapply (buckets_PP (fun l0 b c => sort_f sw R grp f l0 (p + b) c (if R <? shift then shift - R else 0))); [|eauto].
+          intros l0 b c l0' H0. eapply IHs; eauto.
+        + eapply (buckets_PP (fun l0 b c => grp l0 (p + b) c)); [|eauto].
+          intros l0 b c l0' H0. eapply grp_PP; eauto.
+    Qed.
+  End Partial.
+
+  Lemma grp_outer_PP : forall f q cnt i l l', grp_outer sw eqf f q cnt i l = Ok l' -> PP l l'.
+  Proof.
+    assert (Inner : forall n q i j l i' l', grp_inner sw eqf n q i j l = Ok (i', l') -> PP l l').
+    { induction n as [|n IH]; intros q i j l i' l' H; cbn [grp_inner] in H.
+      - inversion H. apply PP_refl.
+      - destruct (eqf (itm l (q + (i - 1))) (itm l (q + j))).
+        + destruct (swp sw l (q + i) (q + j)) eqn:E; try discriminate. cbn [bind] in H.
+          eapply PP_trans; [eapply swp_PP; eauto|eapply IH; eauto].
+        + eapply IH; eauto. }
+    induction f as [|f IH]; intros q cnt i l l' H; cbn [grp_outer] in H; [discriminate|].
+    destruct (i <? cnt); [|inversion H; apply PP_refl].
+    destruct (eqf (itm l (q + (i - 1))) (itm l (q + i))); [eapply IH; eauto|].
+    destruct (grp_inner sw eqf (Z.to_nat (cnt - (i + 1))) q i (i + 1) l) as [[i' l1]| | |] eqn:E; try discriminate.
+    cbn [bind fst snd] in H. eapply PP_trans; [eapply Inner; eauto|eapply IH; eauto].
+  Qed.
+
+  Lemma group_PP (g : bool) l q c l' : (if g then hs_group sw eqf else no_group) l q c = Ok l' -> PP l l'.
+  Proof.
+    destruct g; [|intros H; inversion H; apply PP_refl].
+    unfold hs_group, pvGroup. destruct (2 <? c); [apply grp_outer_PP|intros H; inversion H; apply PP_refl].
+  Qed.
+
+  (* RadixSorter<R>::Sort on W-bit codes (g: with HashSorter's group callback or without), any R, any W, any input:
+     if the model run completes it returns a permutation of the input *)
+  Theorem RadixSortG_perm_partial R g W l l' : RadixSortG sw eqf R g W l = Ok l' -> Permutation l l' /\ alen l' = alen l.
+  Proof.
+    unfold RadixSortG, RadixSort. intros H.
+    eapply (proj1 (sort_radix_PP R _ (group_PP g) _)); eauto.
+  Qed.
+
+  (* HashSorter::Sort / SortPrehashed (radix size 8, 64-bit codes) on at most 32 items: total, the output is a permutation
+     of the (hash,item) pairs (hash array permuted identically), hashes are non-decreasing, and equal items are contiguous
+     inside every hash run -- i.e. exactly the predicate characterised by C17_is_sorted_iff *)
+  Theorem HashSort_small_spec l : alen l <= 32 ->
+    exists l', RadixSortG sw eqf 8 true 64 l = Ok l' /\ Permutation l l' /\ alen l' = alen l /\
+      sortedR l' 0 (alen l') /\ groupedR l' 0 (alen l').
+  Proof.
+    intros Hn. unfold RadixSortG, RadixSort. change (Z.to_nat (2 * 64 + 8)) with (S 135).
+    destruct (sort_small_spec 8 (hs_group sw eqf) 135 l 0 (alen l) (if 8 <? 64 then 64 - 8 else 0)) as (l' & E & Rr & S & G);
+      try (unfold alen; lia).
+    - apply hs_group_contract.
+    - change (selMax 8) with 32. exact Hn.
+    - destruct Rr as (P & L & _). exists l'. rewrite L. simpl in S, G. tauto.
+  Qed.
 End SortProofs.
